@@ -55,7 +55,7 @@ P = {
          "Files up to 60 000 entries / thousands of 1 KiB blocks with levels 0..6: Reader::new reads only the trailer; every operation of 200-step histories (and every state x operation of small deep files) does <= 2*(levels+2) block loads, seeks only to block starts and reads only inside the sought block.",
          "A load is counted both as a seek and as a read at a block start; the larger count is judged. File sizes are sampled up to 60 000 entries.", "5 C16"),
  "C17": ("exploration", "property-based testing (proptest) under a checking global allocator (guard bands, layout table, double-free, minimal alignment, leak over repeated runs) with overflow checks and debug assertions; thorough adds libFuzzer+ASan and Miri",
-         "Insert-size sequences are aimed by a simulation of the buffer arithmetic at exact fits, 1..15 bytes left, 1..5 doublings and over-budget entries; every alloc/dealloc of the run is checked for layout equality, band integrity, double free, zero-size requests; reader paths (including a clone read after its original was dropped) run under the same allocator; content is checked by C07's oracle; a crash of the checking process is attributed to the case in flight and replayed in isolation.",
+         "Insert-size sequences are aimed by a simulation of the buffer arithmetic at exact fits, 1..15 bytes left, 1..5 doublings and over-budget entries; a large-buffer stage lets the live buffer grow through 2..128 MiB with entries sized relative to the current buffer; every alloc/dealloc of the run is checked for layout equality, band integrity, double free, zero-size requests; reader paths (including a clone read after its original was dropped) run under the same allocator; content is checked by C07's oracle; a crash of the checking process is attributed to the case in flight and replayed in isolation.",
          "Dynamic detection on executed paths only: absence of UB is not established. ASan does not see layout mismatches (the checking allocator does); Miri cannot run zstd.", "5 C17, 4.5"),
  "C18": ("exploration", "property-based testing (proptest): perturbed insert sequences under catch_unwind + bounded-exhaustive enumeration of every insert sequence of length <= 5 (thorough 7) over five keys incl. the empty key, 3 layouts; oracle = (panic only on a non-ascending prefix) or (every block sorted per the independent decoder)",
          "Sorted lists are perturbed (swap, duplicate, equal keys, reversed runs, and a non-increasing key placed right after a block emission); either the writer panics at or after the first out-of-order insert, or the independent decoder finds every data and index block strictly ascending.",
